@@ -18,7 +18,9 @@ A_Replay == /\ last.t = "init"
           /\ \E i \in 1..2 : Sync("replay", i)
 A_Swap == /\ last.t = "init"
           /\ \E i \in 1..2 : Sync("swap", i)
-MCNext == A_None \/ A_Drop \/ A_Extra \/ A_Alter \/ A_WrongRoot \/ A_WrongHash \/ A_Replay \/ A_Swap
+A_Relabel == /\ last.t = "init"
+          /\ \E i \in 1..2 : Sync("relabel", i)
+MCNext == A_Relabel \/ A_None \/ A_Drop \/ A_Extra \/ A_Alter \/ A_WrongRoot \/ A_WrongHash \/ A_Replay \/ A_Swap
 MCSpec == Init /\ [][MCNext]_vars
 (* the swap class does get accepted with a missing node somewhere (witness that the model reaches it) *)
 SwapNeverIncomplete == ~(Synced /\ last.t = "swap" /\ last.accepted /\ \E k \in Key : Lookup(local, k) = Missing)
